@@ -51,6 +51,7 @@ class Model:
         self.b = {n: "orig" for n in BINDINGS}
         self.stack = []
         self.adds = frozenset()
+        self.ml_active = False
 
     def arm(self):
         self.b["pickle.load"] = "check"
@@ -59,10 +60,12 @@ class Model:
         for n in BINDINGS:
             self.b[n] = "ml"
         self.adds = frozenset(adds)
+        self.ml_active = True
 
     def remove(self):
         for n in BINDINGS:
             self.b[n] = "orig"
+        self.ml_active = False
 
     def enter(self):
         self.stack.append(self.b["pickle.load"])
@@ -195,6 +198,14 @@ def step(model, ctxs, st):
                     if got != "refused":
                         return (f"{n} is under the ML environment activated with additions {sorted(model.adds)} "
                                 f"but a pickle calling {name} through it was {got} {detail or ''}")
+            if state == "check" and model.ml_active and _distinguishes("ml"):
+                # the check was armed on top of an ML environment nobody deactivated: what the
+                # allowlist refuses stays refused (the check hands accepted bytes to pickle.loads,
+                # which the environment still mediates)
+                got, detail = probe(n, ONLY_ML_REFUSES)
+                if got != "refused":
+                    return (f"{n}: the safety check is armed on top of an active ML environment, but a global outside "
+                            f"the allowlist (datetime.date) through it was {got} {detail or ''}")
             other = ONLY_CHECK_FLAGS if state == "check" else ONLY_ML_REFUSES
             if not _distinguishes(state):
                 continue
